@@ -616,6 +616,31 @@ def _(v):
             except Exception as ex:
                 answered.append((text, label, repr(ex)[:80]))
     v.prove("constant_named_like_a_substance", not answered, detail=repr(answered[:3]))
+    # the same through the DEFAULT configuration of get_odesys (constants inlined): a unique key that is also a substance key (or 'time') would be
+    # looked up among the variables and come back as the concentration (the time); either the call is refused or the stored value 3.0 is used
+    from chempy.chemistry import Reaction
+    from chempy.kinetics.rates import MassAction
+    inlined = []
+    for clash in ("B", "A", "time"):
+        rs2 = ReactionSystem([Reaction({"A": 1}, {"B": 1}, MassAction([3.0], unique_keys=(clash,)))], "A B", substance_factory=Substance)
+        try:
+            o, _e = get_odesys(rs2)
+            yA = o.dep[0]
+            if [e.expand() for e in o.exprs] != [(-3.0 * yA).expand(), (3.0 * yA).expand()]:
+                inlined.append((clash, str(o.exprs)))
+        except (ValueError, KeyError):
+            pass
+        except Exception as ex:
+            inlined.append((clash, repr(ex)[:80]))
+    for text in ("A -> B; 'A'", "A -> B; 'B'"):
+        try:
+            o, _e = get_odesys(ReactionSystem.from_string(text, substance_factory=Substance))
+            inlined.append((text, str(o.exprs)))
+        except (ValueError, KeyError):
+            pass
+        except Exception as ex:
+            inlined.append((text, repr(ex)[:80]))
+    v.prove("unique_key_named_like_a_substance_or_time_with_constants_inlined", not inlined, detail=repr(inlined[:3]))
     rs = ReactionSystem.from_string("A -> B; 't'", substance_factory=Substance)
     try:
         o, _e = _create_odesys(rs)
